@@ -78,7 +78,13 @@ pub struct Debounce {
     queues: BTreeMap<PathBuf, Queue>,
     rename_event: Option<DEvent>,
     pub now: u64,
+    /// events that arrived during the current millisecond (their `Instant`s differ in the
+    /// real debouncer: arrival order breaks the tie)
+    arrivals: (u64, u64),
 }
+
+/// Event times are kept in 1/1024 ms so that events of one millisecond stay ordered.
+const SUB: u64 = 1024;
 
 #[derive(Clone, Debug)]
 pub struct RawEvent {
@@ -118,7 +124,7 @@ impl Debounce {
                         }
                     }
                 }
-                if now.saturating_sub(event.time) >= TIMEOUT_MS {
+                if now.saturating_sub(event.time / SUB) >= TIMEOUT_MS {
                     let len = events_expired.len();
                     if let Some(pos) = kind_index.iter().position(|(k, _)| *k == event.kind) {
                         kind_index[pos].1 = len;
@@ -139,12 +145,22 @@ impl Debounce {
         sort_events(events_expired)
     }
 
+    /// The time stamp of the next arriving event.
+    fn stamp(&mut self) -> u64 {
+        if self.arrivals.0 != self.now {
+            self.arrivals = (self.now, 0);
+        }
+        let sub = self.arrivals.1.min(SUB - 1);
+        self.arrivals.1 += 1;
+        self.now * SUB + sub
+    }
+
     pub fn add_event(&mut self, event: RawEvent, target_exists: impl Fn(&Path) -> bool) {
         let path = match event.paths.first() {
             Some(path) => path.clone(),
             None => return,
         };
-        let now = self.now;
+        let now = self.stamp();
         let devent = |e: &RawEvent, time: u64| DEvent {
             kind: e.kind,
             paths: e.paths.clone(),
@@ -191,7 +207,7 @@ impl Debounce {
             self.push_rename_event(path, event, time);
         } else {
             let mut e = event;
-            e.time = self.now;
+            e.time = self.stamp();
             self.push_event(e);
         }
         self.rename_event = None;
@@ -452,6 +468,34 @@ impl Watches {
     }
 }
 
+/// `mkdir -p` of the missing parents of `path`, immediately followed by whatever the
+/// operation puts there: inotify reports the topmost new directory; notify adds watches
+/// for it and everything inside afterwards, so what is created or moved inside in the
+/// meantime is not reported (calibrated). Returns whether that race applies.
+fn make_parent_dirs(fs: &SimFs, watches: &mut Watches, path: &str, out: &mut Vec<RawEvent>) -> bool {
+    let mut missing_dirs: Vec<String> = Vec::new();
+    let mut p = gen::parent(path).to_owned();
+    while !p.is_empty() && !fs.user_exists(&p) {
+        missing_dirs.push(p.clone());
+        p = gen::parent(&p).to_owned();
+    }
+    missing_dirs.reverse();
+    let mut raced = false;
+    for (i, d) in missing_dirs.iter().enumerate() {
+        fs.user_mkdir(d);
+        if i == 0 && watches.dir_watched(d) {
+            out.push(ev(EventKind::Create(CreateKind::Folder), &watches.spell(d)));
+            raced = true;
+        }
+    }
+    if raced {
+        for d in &missing_dirs {
+            watches.dirs.insert(d.clone());
+        }
+    }
+    raced
+}
+
 /// Raw notify events for one user operation, given the watches in force, and the change
 /// applied to the simulated file system.
 pub fn apply_op(
@@ -465,32 +509,7 @@ pub fn apply_op(
         Op::Edit { path, body } | Op::Add { path, body } => {
             let bytes = body.bytes().unwrap_or_default();
             let existed = fs.user_exists(path);
-            // directories created on the way
-            let mut missing_dirs: Vec<String> = Vec::new();
-            let mut p = gen::parent(path).to_owned();
-            while !p.is_empty() && !fs.user_exists(&p) {
-                missing_dirs.push(p.clone());
-                p = gen::parent(&p).to_owned();
-            }
-            missing_dirs.reverse();
-            // `mkdir -p` immediately followed by the file: inotify reports the topmost new
-            // directory; notify adds watches for it and everything inside afterwards, so
-            // what was created inside in the meantime is not reported (calibrated)
-            let mut raced = false;
-            for (i, d) in missing_dirs.iter().enumerate() {
-                fs.user_mkdir(d);
-                if i == 0 {
-                    if watches.dir_watched(d) {
-                        out.push(ev(EventKind::Create(CreateKind::Folder), &watches.spell(d)));
-                        raced = true;
-                    }
-                }
-            }
-            if raced {
-                for d in &missing_dirs {
-                    watches.dirs.insert(d.clone());
-                }
-            }
+            let raced = make_parent_dirs(fs, watches, path, &mut out);
             let dir_watched = watches.dir_watched(path) && !raced;
             let file_watch = watches.file_watch(path);
             if !existed {
@@ -606,7 +625,8 @@ pub fn apply_op(
             // a directory moves inside the watched tree: one rename pair from the parents'
             // watches; notify re-registers the watches of the moved tree under the new name
             let from_watched = watches.dir_watched(from);
-            let to_watched = watches.dir_watched(to);
+            let raced = make_parent_dirs(fs, watches, to, &mut out);
+            let to_watched = watches.dir_watched(to) && !raced;
             fs.user_rename(from, to);
             let cookie = watches.cookie();
             let prefix = format!("{}/", from);
@@ -649,7 +669,8 @@ pub fn apply_op(
         Op::Rename { from, to } => {
             if fs.user_exists(from) && !fs.user_is_dir(from) {
                 let from_watched = watches.dir_watched(from);
-                let to_watched = watches.dir_watched(to);
+                let raced = make_parent_dirs(fs, watches, to, &mut out);
+                let to_watched = watches.dir_watched(to) && !raced;
                 fs.user_rename(from, to);
                 let cookie = watches.cookie();
                 if from_watched {
@@ -729,7 +750,7 @@ fn to_debounced(events: &[DEvent], base: Instant) -> Vec<DebouncedEvent> {
             if let Some(info) = &e.info {
                 event = event.set_info(info);
             }
-            DebouncedEvent::new(event, base + Duration::from_millis(e.time))
+            DebouncedEvent::new(event, base + Duration::from_micros(e.time * 1000 / SUB))
         })
         .collect()
 }
